@@ -25,8 +25,8 @@ META = {
 
 def shards(tier):
     if tier == "quick":
-        return [{"label": "files%d" % i, "n": 350} for i in range(8)]
-    return [{"label": "files%d" % i, "n": 12000} for i in range(16)]
+        return [{"label": "files%d" % i, "n": 500} for i in range(12)]
+    return [{"label": "files%d" % i, "n": 25000} for i in range(16)]
 
 
 def cases(ctx):
